@@ -909,3 +909,180 @@ Proof.
   intros R. destruct (inv_reach _ _ R) as [[W I4] _].
   split; [exact (wf_nodup _ _ _ _ W)|]. split; [exact (wf_wait _ _ _ _ W)|exact I4].
 Qed.
+
+(** * 5. work conservation *)
+Lemma idxs_where_in {A} (p : A -> bool) : forall (l : list A) i k x,
+  nth_error l k = Some x -> p x = true -> In (i + k) (idxs_where p i l).
+Proof.
+  induction l as [|y r IH]; intros i [|k] x H P; cbn in *; try discriminate.
+  - injection H as ->. rewrite P. rewrite Nat.add_0_r. left; auto.
+  - apply in_or_app. right. replace (i + S k) with (S i + k) by lia. eapply IH; eauto.
+Qed.
+
+Lemma acquire_enabled s k t :
+  crash s = None -> nth_error (tasks s) k = Some t -> at_acquire s t = true ->
+  exists r, step s (LRelAcquire k) = Some r.
+Proof.
+  intros C E A. unfold at_acquire in A. destruct (t_st t) eqn:St; try discriminate.
+  assert (R : exists s1 os1, step_raw s (LRelAcquire k) = Some (s1, os1)).
+  { cbn. rewrite E, St, A. cbn.
+    destruct (t_cancelled t); [eauto|].
+    destruct (sem_free s); [eauto|]. destruct (sem_wait s); [|eauto].
+    destruct (t_builtin t); eauto. }
+  destruct R as (s1 & os1 & R). unfold step. rewrite C, R.
+  destruct (crash s1); eauto.
+Qed.
+
+Lemma acquire_in_enabled s k t :
+  crash s = None -> nth_error (tasks s) k = Some t -> at_acquire s t = true ->
+  In (LRelAcquire k) (enabled_rel s).
+Proof.
+  intros C E A. unfold enabled_rel. apply filter_In. split.
+  - apply in_flat_map. exists SAcquire. split; [cbn; auto 10|].
+    cbn. apply in_map. apply (idxs_where_in (at_acquire s) (tasks s) 0 k t E A).
+  - destruct (acquire_enabled _ _ _ C E A) as (r & ->). reflexivity.
+Qed.
+
+Lemma work_conserving c s :
+  reach c s -> crash s = None -> quiescent s = true -> 0 < sem_free s ->
+  forall k t, nth_error (tasks s) k = Some t -> t_st t <> TWaiting /\ at_acquire s t = false.
+Proof.
+  intros R C Q F k t E. destruct (wait_queue _ _ R) as (_ & Wq & I4). split.
+  - intros St. assert (I : In k (sem_wait s)) by (apply Wq; eauto). rewrite (I4 F) in I. destruct I.
+  - destruct (at_acquire s t) eqn:A; auto.
+    pose proof (acquire_in_enabled _ _ _ C E A) as I.
+    unfold quiescent in Q. apply is_nil_list_true in Q. rewrite Q in I. destruct I.
+Qed.
+
+(** * 6. the cancelled waiter *)
+Lemma cancelled_not_waiting c s k t :
+  reach c s -> nth_error (tasks s) k = Some t -> t_cancelled t = true -> t_st t <> TWaiting.
+Proof. intros R. destruct (inv_reach _ _ R) as [[W _] _]. exact (wf_canc _ _ _ _ W k t). Qed.
+
+Lemma cancelled_not_queued c s k t :
+  reach c s -> nth_error (tasks s) k = Some t -> t_cancelled t = true -> ~ In k (sem_wait s).
+Proof.
+  intros R E C I. destruct (wait_queue _ _ R) as (_ & Wq & _).
+  apply Wq in I as (x & Hx & Sx). assert (x = t) by congruence. subst x.
+  eapply cancelled_not_waiting; eauto.
+Qed.
+
+Lemma acquire_cancelled_raw s k t s' os :
+  nth_error (tasks s) k = Some t -> t_st t = TAtAcquire -> t_cancelled t = true ->
+  step_raw s (LRelAcquire k) = Some (s', os) ->
+  os = [] /\ nth_error (tasks s') k = Some (t <| t_st := TDone (Some cancel_err) |>) /\
+  sem_free s' = sem_free s /\ sem_wait s' = sem_wait s.
+Proof.
+  intros E St C. cbn. rewrite E, St, C.
+  destruct (negb (unit_running s t)); [discriminate|]. intros [= <- <-].
+  unfold set_task. cbn. split; auto. split; auto. apply nth_error_upd_nth_eq; auto.
+Qed.
+
+Lemma acquire_cancelled_step s k t s' os :
+  nth_error (tasks s) k = Some t -> t_st t = TAtAcquire -> t_cancelled t = true ->
+  step s (LRelAcquire k) = Some (s', os) ->
+  (forall p c, ~ In (OStart p c) os) /\
+  nth_error (tasks s') k = Some (t <| t_st := TDone (Some cancel_err) |>) /\
+  sem_free s' = sem_free s /\ sem_wait s' = sem_wait s.
+Proof.
+  intros E St C H. apply step_decompose in H as (_ & s1 & os1 & R & D).
+  destruct (acquire_cancelled_raw _ _ _ _ _ E St C R) as (-> & N & F & Q).
+  destruct D as [(_ & -> & ->)|(_ & S)].
+  - split; auto.
+  - destruct (settle_obs_app _ _ _ _ _ S) as (ex & -> & Fx).
+    pose proof (settle_extends _ _ _ _ _ S) as X.
+    split; [|split; [eapply extends_nth; eauto|destruct X as (_ & F2 & Q2 & _); split; congruence]].
+    intros p c I. cbn in I. rewrite Forall_forall in Fx. destruct (Fx _ I).
+Qed.
+
+(* its reply is the cancellation error with its id *)
+Lemma cancelled_response c s k t b :
+  reach c s -> nth_error (tasks s) k = Some t -> (t_st t = TWaiting \/ t_st t = TAtAcquire) ->
+  let t' := t <| t_cancelled := b |> <| t_st := TDone (Some cancel_err) |> in
+  task_body t' = BErr Cancelled s_ctx_canceled /\
+  response_of t' = if is_note t then None else Some {| r_id := t_id t; r_body := BErr Cancelled s_ctx_canceled |}.
+Proof.
+  intros R E St. destruct (inv_reach _ _ R) as [[W _] _].
+  assert (P : t_pre t = None) by (destruct (wf_pre _ _ _ _ W _ _ E) as [P|P]; [auto|destruct St; congruence]).
+  cbn. unfold task_body, response_of, is_note, task_body. cbn. rewrite P. cbn. split; auto.
+Qed.
+
+Lemma cancelled_done_response c s k t :
+  reach c s -> nth_error (tasks s) k = Some t -> t_st t = TDone (Some cancel_err) ->
+  task_body t = BErr Cancelled s_ctx_canceled /\
+  response_of t = if is_note t then None else Some {| r_id := t_id t; r_body := BErr Cancelled s_ctx_canceled |}.
+Proof.
+  intros R E St. destruct (inv_reach _ _ R) as [[W _] _].
+  assert (P : t_pre t = None) by (destruct (wf_pre _ _ _ _ W _ _ E) as [P|P]; [auto|congruence]).
+  unfold response_of, task_body. rewrite P, St. split; auto.
+Qed.
+
+(** * 6d. task status only moves forward *)
+Definition forward (ts ts' : list task) : Prop :=
+  forall k t, nth_error ts k = Some t ->
+  exists t', nth_error ts' k = Some t' /\
+    rank (t_st t) <= rank (t_st t') /\ (4 <= rank (t_st t) -> t_st t' = t_st t) /\
+    t_id t' = t_id t /\ t_method t' = t_method t /\ t_params t' = t_params t /\
+    (t_cancelled t = true -> t_cancelled t' = true).
+
+Lemma mono_forward ts ts' : mono ts ts' -> forward ts ts'.
+Proof.
+  intros M k t E. destruct (M _ _ E) as (t' & E' & (_ & I & Me & P & _) & C & R & D).
+  exists t'. repeat split; auto.
+Qed.
+
+Lemma forward_raw c s l s' os : reachf c s -> step_raw s l = Some (s', os) -> forward (tasks s) (tasks s').
+Proof.
+  intros R H. destruct (inv_reachf _ _ R) as [W _]. apply mono_forward.
+  destruct (step_raw_ok _ _ _ _ W H) as (_ & _ & M & _). exact M.
+Qed.
+
+Lemma forward_settle1 s s' os : settle1 s = Some (s', os) -> forward (tasks s) (tasks s').
+Proof. intros H. apply mono_forward, extends_mono. eapply settle1_extends; eauto. Qed.
+
+Lemma mono_step c s l s' os : reach c s -> step s l = Some (s', os) -> mono (tasks s) (tasks s').
+Proof.
+  intros R H. destruct (inv_reach _ _ R) as [W _].
+  destruct (step_ok _ _ _ _ W H) as (_ & _ & M & _). exact M.
+Qed.
+
+Lemma mono_run c : forall tr s s' oss, reach c s -> run s tr = Some (s', oss) -> mono (tasks s) (tasks s').
+Proof.
+  induction tr as [|l r IH]; cbn; intros s s' oss R H.
+  - injection H as <- <-. apply mono_refl.
+  - destruct (step s l) as [[s1 os]|] eqn:E; [|discriminate].
+    destruct (run s1 r) as [[s2 oss2]|] eqn:E2; [|discriminate]. injection H as <- <-.
+    eapply mono_trans; [eapply mono_step; eauto|].
+    eapply IH; [|exact E2]. eapply reach_step; eauto.
+Qed.
+
+Lemma forward_step c s l s' os : reach c s -> step s l = Some (s', os) -> forward (tasks s) (tasks s').
+Proof. intros R H. apply mono_forward. eapply mono_step; eauto. Qed.
+
+Lemma forward_run c tr s s' oss : reach c s -> run s tr = Some (s', oss) -> forward (tasks s) (tasks s').
+Proof. intros R H. apply mono_forward. eapply mono_run; eauto. Qed.
+
+(* a task that is done (in particular: done with the cancellation error, having been
+   cancelled while waiting or before Acquire) stays so: its handler never runs *)
+Lemma done_never_runs c s k t b tr s' oss :
+  reach c s -> nth_error (tasks s) k = Some t -> t_st t = TDone b ->
+  run s tr = Some (s', oss) ->
+  exists t', nth_error (tasks s') k = Some t' /\ t_st t' = TDone b /\ is_running t' = false.
+Proof.
+  intros R E St H. destruct (forward_run _ _ _ _ _ R H _ _ E) as (t' & E' & _ & D & _).
+  exists t'. split; auto. rewrite St in D. cbn in D. rewrite (D (le_n _)).
+  unfold is_running. rewrite (D (le_n _)). auto.
+Qed.
+
+(* and no later handler entry is its own *)
+Lemma done_never_started c s k t b l s' os p cancelled :
+  reach c s -> nth_error (tasks s) k = Some t -> t_st t = TDone b ->
+  step s l = Some (s', os) -> In (OStart p cancelled) os ->
+  exists k' t1 t1', k' <> k /\ nth_error (tasks s) k' = Some t1 /\ nth_error (tasks s') k' = Some t1' /\
+    t_params t1 = p /\ (t_st t1 = TAtAcquire \/ t_st t1 = TWaiting) /\ t_st t1' = TRunning.
+Proof.
+  intros R E St H I.
+  destruct (start_takes_slot _ _ _ _ _ _ _ R H I) as (k' & t1 & t1' & E1 & E1' & P & _ & _ & _ & S1 & S1').
+  exists k', t1, t1'. repeat split; auto.
+  intros ->. assert (t1 = t) by congruence. subst t1. destruct S1; congruence.
+Qed.
